@@ -4,6 +4,7 @@ import (
 	"fmt"
 	"math/big"
 	mrand "math/rand/v2"
+	"strings"
 
 	"github.com/gmrtd/gmrtd/chipauth"
 	"github.com/gmrtd/gmrtd/document"
@@ -24,10 +25,15 @@ func init() {
 		ID:    "C06",
 		Level: "exploration",
 		Rule: "positive case = one chipauth.DoChipAuth run (inside an existing SM session) against the simulated chip that holds the DG14 private key, over curve (11 parameter sets; named, explicit, explicit with seed) x suite (3DES, AES-128/192/256) x key-id arrangement (none; id in info and key; two keys with the info selecting the second; info missing so the suite is inferred -> MSE:Set KAT) x terminal ephemeral key (deterministic per case; plus re-personalised static keys that make the shared x-coordinate start with a zero octet); afterwards a file is read under the new keys; " +
-			"impostor case = chip without the private key using one strategy (old session keys, unprotected status, random MAC, replay, keys from a random secret, keys from another point, protected error status); oracle: Success only if the chip used the private key; non-trivial = every run; distinct = configuration x strategy x session randomness",
+			"further arrangements: 2..4 ChipAuthenticationInfos in DG14 (every ordered selection of distinct suites, repeated suites with different keys; one key for all, a key per info, keys shared by some; key identifiers of 1..3 octets or left out; SET in written order, DER order, shuffled; optional finite-field DH entries) against a chip that binds each key to the suites it is announced with; " +
+			"state of the channel when CA starts: session on both sides, no session on a chip without access control (success demanded), no session on a locked chip / session only on the chip (only 'no false success' demanded); a reported success needs a key agreement that reached the chip; " +
+			"the same through reader.ReadDocument (several infos inside a BAC/PACE session; chip without access control; copied files on a chip whose BAC/PACE fails) for the key holder and every applicable impostor strategy; " +
+			"impostor case = chip without the private key using one strategy (old session keys, unprotected status, random MAC, replay, keys from a random secret, keys from another point, protected error status, refusal of everything / of the CA commands); oracle: Success only if the chip used the private key; non-trivial = every run; distinct = configuration x strategy x session randomness",
 		MinEvaluations: 300,
 		Assumptions: []string{
 			"conforming chip half written from ICAO 9303-11 6.2 / TR-03110 (CA version 1 over ECDH; new SM keys after the key agreement, counter restarted)",
+			"a chip without access control offers chip authentication in the clear and starts secure messaging with it (9303-11 6.2); a chip whose access condition is not satisfied may refuse it",
+			"with several chip authentication keys every key and every ChipAuthenticationInfo carries the key identifier (ICAO 9303-11 9.2: keyId MUST be used if the chip provides multiple public keys for chip authentication); an info may omit it when the chip has one key",
 			"DG14 keys use named or explicit X9.62 parameters (explicit with cofactor); the BSI standardised-domain-parameter AlgorithmIdentifier is only generated for CardSecurity (PACE-CAM)",
 		},
 		Run: runC06,
@@ -41,10 +47,21 @@ type c06Cfg struct {
 	arrange  int // 0 no ids, 1 id in both, 2 two keys select second, 3 info missing (inferred)
 	grind    bool
 	strategy string
+	// arrange 4: DG14 lists several ChipAuthenticationInfos (c06_shapes.go); suite is unused
+	multi *c06Multi
+	// state of the channel when chip authentication starts (c06Chan*; 0 = a session exists)
+	channel int
 }
 
 func (c c06Cfg) String() string {
-	return fmt.Sprintf("curve=%s suite=%v form=%d arrange=%d grind=%v strategy=%s", ecref.All()[c.curve].Name, c.suite, c.form, c.arrange, c.grind, c.strategy)
+	s := fmt.Sprintf("curve=%s suite=%v form=%d arrange=%d grind=%v strategy=%s", ecref.All()[c.curve].Name, c.suite, c.form, c.arrange, c.grind, c.strategy)
+	if c.multi != nil {
+		s += " multi=" + c.multi.String()
+	}
+	if c.channel != c06ChanSession {
+		s += " channel=" + c06ChanNames[c.channel]
+	}
+	return s
 }
 
 type c06World struct {
@@ -55,6 +72,7 @@ type c06World struct {
 	oldSM *chipsim.SM // copy of the pre-CA session (for impostor strategies)
 	caKey *chipsim.CAKey
 	curve *ecref.Curve
+	shape string // arrange 4: where the strongest announced suite stands, and how keys are shared
 }
 
 func c06BuildDG14(cfg c06Cfg, keys []*issuer.Key, ids []int, infoKeyID int) []byte {
@@ -84,9 +102,33 @@ func c06NewWorld(k *fw.K, cfg c06Cfg, static *big.Int) *c06World {
 	}
 	var keys []*issuer.Key
 	var ids []int
+	var curves []*ecref.Curve
+	var announced []chipsim.CAAnnounce
 	infoKeyID := -1
 	target := 0
 	switch cfg.arrange {
+	case 4:
+		m := cfg.multi
+		for j := 0; j < m.nkeys; j++ {
+			cv := ecref.All()[m.curves[j]]
+			var key *issuer.Key
+			if static != nil && j == 0 {
+				key = mk(static)
+			} else {
+				key = issuer.NewECKey(r, cv)
+				key.Explicit = cfg.form >= 1
+				key.WithSeed = cfg.form == 2
+			}
+			keys, ids, curves = append(keys, key), append(ids, m.keyIDs[j]), append(curves, cv)
+		}
+		w.dg14, w.shape = m.build(r, keys)
+		for _, in := range m.infos {
+			id := -1
+			if in.withID {
+				id = m.keyIDs[in.key]
+			}
+			announced = append(announced, chipsim.CAAnnounce{Suite: in.suite, KeyID: id})
+		}
 	case 0, 3:
 		keys, ids = []*issuer.Key{mk(static)}, []int{-1}
 	case 1:
@@ -96,32 +138,58 @@ func c06NewWorld(k *fw.K, cfg c06Cfg, static *big.Int) *c06World {
 		id1, id2 := 1+r.IntN(100), 101+r.IntN(100)
 		keys, ids, infoKeyID, target = []*issuer.Key{mk(nil), mk(static)}, []int{id1, id2}, id2, 1
 	}
-	w.dg14 = c06BuildDG14(cfg, keys, ids, infoKeyID)
+	if cfg.arrange != 4 {
+		w.dg14 = c06BuildDG14(cfg, keys, ids, infoKeyID)
+	}
 	w.card = chipsim.NewCard()
 	w.card.AuthRequired = true
 	w.card.Authed = true
-	ca := &chipsim.CAState{}
+	// the chip binds every key to the suites it announces it with (arrange 4 only)
+	ca := &chipsim.CAState{Announced: announced}
 	for i, key := range keys {
 		priv := key.EC.D
 		if cfg.strategy != "" {
 			priv = nil // impostor: public key copied from the genuine document, no private key
 		}
-		ca.Keys = append(ca.Keys, chipsim.CAKey{KeyID: ids[i], Curve: w.curve, Priv: priv, Pub: key.EC.Q})
+		cv := w.curve
+		if curves != nil {
+			cv = curves[i]
+		}
+		ca.Keys = append(ca.Keys, chipsim.CAKey{KeyID: ids[i], Curve: cv, Priv: priv, Pub: key.EC.Q})
 	}
 	w.caKey = &ca.Keys[target]
 	w.card.CA = ca
 	w.card.LDS[chipsim.FidDG(14)] = w.dg14
 	w.card.LDS[chipsim.FidCOM] = []byte{0x60, 0x0A, 0x5F, 0x01, 0x04, 0x30, 0x31, 0x30, 0x37, 0x5C, 0x01, 0x6E}
-	// an existing session (as after BAC / PACE): 3DES or AES depending on the case
-	pre := symref.AllSuites[r.IntN(4)]
-	kenc, kmac := randKey(r, pre), randKey(r, pre)
-	ssc := startSSC(r, pre, r.IntN(2))
-	w.card.SM = chipsim.NewSM(pre, kenc, kmac, ssc)
 	tr := &funcTransceiver{f: w.card.Transceive}
 	w.nfc = iso7816.NewNfcSession(tr)
-	w.nfc.SetSecureMessaging(newLibSM(k, pre, kenc, kmac, ssc))
-	if sel, err := w.nfc.SelectAid(chipsim.LDS1AID); err != nil || !sel {
-		fw.LibFail("select-aid-failed", "protected SELECT AID on the conforming simulated chip failed: %v", err)
+	switch cfg.channel {
+	case c06ChanSession, c06ChanChipOnly:
+		// an existing session (as after BAC / PACE): 3DES or AES depending on the case
+		pre := symref.AllSuites[r.IntN(4)]
+		kenc, kmac := randKey(r, pre), randKey(r, pre)
+		ssc := startSSC(r, pre, r.IntN(2))
+		w.card.SM = chipsim.NewSM(pre, kenc, kmac, ssc)
+		w.nfc.SetSecureMessaging(newLibSM(k, pre, kenc, kmac, ssc))
+		if sel, err := w.nfc.SelectAid(chipsim.LDS1AID); err != nil || !sel {
+			fw.LibFail("select-aid-failed", "protected SELECT AID on the conforming simulated chip failed: %v", err)
+		}
+		if cfg.channel == c06ChanChipOnly {
+			// the terminal lost (or never completed) its half of the session
+			w.nfc = iso7816.NewNfcSession(tr)
+		}
+	default:
+		// no session at all when chip authentication starts
+		w.card.Authed = false
+		switch cfg.channel {
+		case c06ChanOpen:
+			w.card.AuthRequired = false // chip without access control
+		case c06ChanLockedRefusing:
+			ca.RequireAccess = true
+		}
+		if sel, err := w.nfc.SelectAid(chipsim.LDS1AID); err != nil || !sel {
+			fw.LibFail("select-aid-failed", "plain SELECT AID on the conforming simulated chip failed: %v", err)
+		}
 	}
 	w.doc = &document.Document{}
 	dg14, err := document.NewDG14(w.dg14)
@@ -195,12 +263,37 @@ func c06Positive(k *fw.K, cfg c06Cfg, idx int) {
 	if cfg.grind && lz == "" {
 		k.Count("grind_missed_same_ephemeral_key")
 	}
+	arr := fmt.Sprintf("arrange%d", cfg.arrange)
+	if cfg.arrange == 4 {
+		arr = "multi-info:" + w.shape
+		k.Count("positive_multi_info_" + w.shape)
+		k.Count("positive_multi_info_layout_" + c06LayoutNames[cfg.multi.layout] + "_" + strings.SplitN(w.shape, ":", 2)[0])
+		if cfg.multi.dh {
+			k.Count("positive_multi_info_with_dh_entries")
+		}
+	}
+	chn := c06ChanNames[cfg.channel]
+	if cfg.channel != c06ChanSession {
+		arr += ":" + chn
+		k.Count("positive_channel_" + chn)
+	}
+	agreements := c06KeyAgreementsSeen(w.card)
 	if err != nil || res == nil || !res.Success {
+		if !c06ChanDemandsSuccess(cfg.channel) {
+			// the chip's access condition is not satisfied (or the two halves of the channel
+			// disagree): nothing is demanded of the genuine chip, only "no false success"
+			k.Count("positive_not_demanded_failed_" + chn)
+			return
+		}
 		phase := "before-key-agreement"
 		if ca.Runs > 0 {
 			phase = "after-key-agreement"
 		}
-		k.Violation(fmt.Sprintf("ca:genuine-failed:%s:arrange%d%s", phase, cfg.arrange, lz), fmt.Sprintf("chip authentication against the chip holding the DG14 key failed: %v", err), w.detail(cfg, err))
+		k.Violation(fmt.Sprintf("ca:genuine-failed:%s:%s%s", phase, arr, lz), fmt.Sprintf("chip authentication against the chip holding the DG14 key failed: %v", err), w.detail(cfg, err))
+		return
+	}
+	if agreements == 0 {
+		k.Violation("ca:success-without-key-agreement:"+chn, "DoChipAuth reports success but the chip never received MSE:Set KAT / GENERAL AUTHENTICATE", w.detail(cfg, err))
 		return
 	}
 	if !ca.UsedPrivateKey || !w.card.CADone {
@@ -235,6 +328,16 @@ func c06Positive(k *fw.K, cfg c06Cfg, idx int) {
 	}
 	k.Count("positive_ok")
 	k.Count(fmt.Sprintf("positive_ok_arrange%d", cfg.arrange))
+	if cfg.arrange == 4 {
+		k.Count("positive_ok_multi_info_" + w.shape)
+		k.Count(fmt.Sprintf("positive_ok_multi_info_chip_ran_%v", ca.Suite))
+		if ca.LastKey != nil && ca.LastKey != &ca.Keys[0] {
+			k.Count("positive_ok_multi_info_other_than_first_key")
+		}
+	}
+	if cfg.channel != c06ChanSession {
+		k.Count("positive_ok_channel_" + chn)
+	}
 	if ca.ViaKAT {
 		k.Count("positive_ok_via_mse_set_kat")
 	}
@@ -243,32 +346,40 @@ func c06Positive(k *fw.K, cfg c06Cfg, idx int) {
 
 var c06Strategies = []string{"empty-mac", "truncated-mac", "zero-mac", "old-session-keys", "unprotected-9000", "unprotected-6a82", "random-mac", "replay-earlier-9000", "keys-from-random-secret", "keys-from-other-point", "keys-from-terminal-key-x", "protected-6a82-fake-keys", "protected-6283-fake-keys", "refuse"}
 
-func c06Impostor(k *fw.K, cfg c06Cfg, idx int) {
-	w := c06NewWorld(k, cfg, nil)
-	if w == nil {
-		return
+// c06InstallImpostor turns the card into a chip that lacks every chip authentication private
+// key and follows one strategy. The session the chip holds at this moment (nil: none) is the
+// "old session" of the strategies that need one.
+func c06InstallImpostor(card *chipsim.Card, strategy string, r *mrand.Rand) {
+	ca := card.CA
+	for i := range ca.Keys {
+		ca.Keys[i].Priv = nil
 	}
-	r := k.RNG
-	ca := w.card.CA
-	oldSM := w.card.SM // pointer to the pre-CA session state (chip side)
+	oldSM := card.SM   // pointer to the pre-CA session state (chip side)
 	var earlier []byte // an earlier genuine protected 9000 of this session
 	var fake *chipsim.SM
-	cv := w.curve
-	switch cfg.strategy {
-	case "refuse":
+	switch strategy {
+	case "refuse", "refuse-everything-6982", "refuse-ca-commands-6982":
 		// no FakeSecret: the chip answers 6300 to the key agreement
 	case "keys-from-other-point":
 		ca.FakeSecret = func(key *chipsim.CAKey, pk ecref.Point) []byte {
+			cv := key.Curve
 			pt := cv.Mul(new(big.Int).SetBytes(randBytes(r, cv.ByteLen-1)), pk)
 			return cv.FE2OS(pt.X)
 		}
 	case "keys-from-terminal-key-x":
-		ca.FakeSecret = func(key *chipsim.CAKey, pk ecref.Point) []byte { return cv.FE2OS(pk.X) }
+		ca.FakeSecret = func(key *chipsim.CAKey, pk ecref.Point) []byte { return key.Curve.FE2OS(pk.X) }
 	default:
-		ca.FakeSecret = func(key *chipsim.CAKey, pk ecref.Point) []byte { return randBytes(r, cv.ByteLen) }
+		ca.FakeSecret = func(key *chipsim.CAKey, pk ecref.Point) []byte { return randBytes(r, key.Curve.ByteLen) }
 	}
 	caDone := false
-	w.card.Hook = func(ev *chipsim.Event) []byte {
+	runs := ca.Runs
+	card.Hook = func(ev *chipsim.Event) []byte {
+		if strategy == "refuse-everything-6982" {
+			return []byte{0x69, 0x82}
+		}
+		if strategy == "refuse-ca-commands-6982" && ev.Cmd != nil && !ev.Protected && (ev.Cmd.INS == 0x86 || (ev.Cmd.INS == 0x22 && ev.Cmd.P1 == 0x41)) {
+			return []byte{0x69, 0x82}
+		}
 		if ev.Cmd == nil {
 			// after the impostor switched to fake keys the probe cannot be authenticated by
 			// the chip; it answers anyway, according to its strategy
@@ -280,7 +391,10 @@ func c06Impostor(k *fw.K, cfg c06Cfg, idx int) {
 			if ev.SW == 0x9000 && ev.Protected {
 				earlier = append([]byte{}, ev.Resp...)
 			}
-			if ev.Cmd.INS == 0x86 || (ev.Cmd.INS == 0x22 && ev.Cmd.P2 == 0xA6) {
+			// the command that ran the chip authentication key agreement (GENERAL AUTHENTICATE
+			// is also a PACE command: go by the chip's own count)
+			if ca.Runs > runs {
+				runs = ca.Runs
 				if ev.SW == 0x9000 {
 					caDone = true
 					if ca.KSEnc != nil {
@@ -294,8 +408,11 @@ func c06Impostor(k *fw.K, cfg c06Cfg, idx int) {
 			return nil
 		}
 		// this is the probe (first command after the key agreement)
-		switch cfg.strategy {
+		switch strategy {
 		case "old-session-keys":
+			if oldSM == nil {
+				return []byte{0x69, 0x88}
+			}
 			o := oldSM.Clone()
 			chipsim.IncSSC(o.SSC) // the command
 			return o.Wrap(nil, 0x9000)
@@ -331,11 +448,32 @@ func c06Impostor(k *fw.K, cfg c06Cfg, idx int) {
 		}
 		return nil
 	}
+}
+
+func c06Impostor(k *fw.K, cfg c06Cfg, idx int) {
+	w := c06NewWorld(k, cfg, nil)
+	if w == nil {
+		return
+	}
+	ca := w.card.CA
+	c06InstallImpostor(w.card, cfg.strategy, k.RNG)
 	k.Nontrivial(cfg.String() + fmt.Sprintf("|%d", idx))
 	k.Count("impostor_" + cfg.strategy)
+	chn := ""
+	if cfg.channel != c06ChanSession {
+		chn = c06ChanNames[cfg.channel] + ":"
+		k.Count("impostor_channel_" + c06ChanNames[cfg.channel])
+	}
+	if cfg.arrange == 4 {
+		k.Count("impostor_multi_info")
+	}
 	res, err := chipauth.NewChipAuth(w.nfc, w.doc).DoChipAuth()
-	if err == nil && res != nil && res.Success {
-		k.Violation("ca:impostor-accepted:"+cfg.strategy, fmt.Sprintf("chip authentication reported successful against a chip without the private key (strategy %s)", cfg.strategy), w.detail(cfg, err))
+	// a Success flag is a claim whatever the error value says
+	if res != nil && res.Success {
+		if c06KeyAgreementsSeen(w.card) == 0 {
+			k.Count("impostor_accepted_without_any_key_agreement")
+		}
+		k.Violation("ca:impostor-accepted:"+chn+cfg.strategy, fmt.Sprintf("chip authentication reported successful against a chip without the private key (strategy %s, %d key agreement commands reached the chip)", cfg.strategy, c06KeyAgreementsSeen(w.card)), w.detail(cfg, err))
 		return
 	}
 	if ca.UsedPrivateKey {
@@ -390,5 +528,14 @@ func runC06(c *fw.Ctx) {
 		}
 	}
 	c.Cases(len(neg), func(i int) string { return fmt.Sprintf("impostor|%s #%d", neg[i], i) }, func(i int, k *fw.K) { c06Impostor(k, neg[i], i) })
+
+	// several ChipAuthenticationInfos; state of the channel when chip authentication starts
+	pos2, neg2 := c06ShapePlans(c)
+	c.Cases(len(pos2), func(i int) string { return fmt.Sprintf("positive-shapes|%s #%d", pos2[i], i) }, func(i int, k *fw.K) { c06Positive(k, pos2[i], 500000+i) })
+	c.Cases(len(neg2), func(i int) string { return fmt.Sprintf("impostor-shapes|%s #%d", neg2[i], i) }, func(i int, k *fw.K) { c06Impostor(k, neg2[i], 500000+i) })
+
+	// the same through reader.ReadDocument: several infos; access control absent or failed
+	rd := c06ReaderPlans(c)
+	c.Cases(len(rd), func(i int) string { return fmt.Sprintf("reader|%s #%d", rd[i], i) }, func(i int, k *fw.K) { c06Reader(k, rd[i], 700000+i) })
 	_ = mrand.Uint32
 }
